@@ -21,15 +21,17 @@ type Engine struct {
 	wrap64    map[*ssa.Function]bool
 	stale     []string
 	axioms    []string
+	axiomDefs []*Axiom
 	mapInv    map[string]string
 	accCache  map[string][]accessorImpl
+	typeInv   map[string]string
 	keySorts  *Sorts // only for typeKey computations that must be unit independent
 }
 
 func newEngine(l *Loaded) *Engine {
 	e := &Engine{L: l, contracts: map[string]*Contract{}, externs: map[string]*ExternContract{}, funcs: map[string]*ssa.Function{},
 		funcIDs: map[*ssa.Function]int{}, modsets: map[*ssa.Function]ModSet{}, modBusy: map[*ssa.Function]bool{}, wrap64: map[*ssa.Function]bool{},
-		keySorts: newSorts(), mapInv: map[string]string{}, accCache: map[string][]accessorImpl{}}
+		keySorts: newSorts(), mapInv: map[string]string{}, accCache: map[string][]accessorImpl{}, typeInv: map[string]string{}}
 	for _, sp := range l.SSA {
 		if sp == nil {
 			continue
@@ -88,7 +90,7 @@ func (e *Engine) storeRoot(addr ssa.Value, fn *ssa.Function, prefix string) (str
 		if !x.Heap {
 			return fmt.Sprintf("C:%s%s.%s.%d", prefix, funcName(fn), x.Comment, indexOfLocal(fn, x)), et
 		}
-		return "H:" + ks.typeKey(et), et
+		return "HF:" + ks.typeKey(et), et
 	case *ssa.Global:
 		et := x.Type().Underlying().(*types.Pointer).Elem()
 		return "G:" + x.Pkg.Pkg.Path() + "." + x.Name(), et
@@ -331,20 +333,20 @@ func (e *Engine) allocHeaps(fn *ssa.Function, names ModSet, seen map[*ssa.Functi
 			case *ssa.Alloc:
 				if x.Heap {
 					et := x.Type().Underlying().(*types.Pointer).Elem()
-					names["H:"+ks.typeKey(et)] = et
+					names["HF:"+ks.typeKey(et)] = et
 				}
 			case *ssa.MakeSlice:
 				et := x.Type().Underlying().(*types.Slice).Elem()
-				names["E:"+ks.typeKey(et)] = et
+				names["EF:"+ks.typeKey(et)] = et
 			case *ssa.Convert:
 				if sl, ok := x.Type().Underlying().(*types.Slice); ok {
-					names["E:"+ks.typeKey(sl.Elem())] = sl.Elem()
+					names["EF:"+ks.typeKey(sl.Elem())] = sl.Elem()
 				}
 			case ssa.CallInstruction:
 				c := x.Common()
 				if bi, ok := c.Value.(*ssa.Builtin); ok && bi.Name() == "append" {
 					if sl, ok := c.Args[0].Type().Underlying().(*types.Slice); ok {
-						names["E:"+ks.typeKey(sl.Elem())] = sl.Elem()
+						names["EF:"+ks.typeKey(sl.Elem())] = sl.Elem()
 					}
 				}
 				if f := c.StaticCallee(); f != nil && isRepoFunc(f) && len(f.Blocks) > 0 {
